@@ -51,6 +51,9 @@ pub struct DrawPlan {
     pub row_id: DrawMode,
     pub other: DrawMode,
     pub seed: u64,
+    /// Per-site overrides (site id of the draw, mode): a single noise site forced on its own.
+    #[serde(default)]
+    pub overrides: Vec<(i64, DrawMode)>,
 }
 
 pub const THRESHOLD_ALIAS: &str = "_COUNT_DISTINCT_PID_";
@@ -72,7 +75,15 @@ impl DrawPlan {
             row_id: DrawMode::Seeded,
             other: DrawMode::Seeded,
             seed,
+            overrides: vec![],
         }
+    }
+    /// Force one noised column (its two Box-Muller sites) to z * sigma, whatever the rest does.
+    pub fn with_site_z(mut self, u1_site: i64, u2_site: i64, z: f64) -> DrawPlan {
+        let (a, b) = DrawPlan::z_modes(z);
+        self.overrides.push((u1_site, a));
+        self.overrides.push((u2_site, b));
+        self
     }
     /// Every Gaussian term exactly zero (aggregates and threshold); other roles seeded.
     pub fn neutral(seed: u64) -> DrawPlan {
@@ -116,7 +127,12 @@ impl DrawPlan {
         self.row_id = m;
         self
     }
-    fn mode(&self, role: Role, alias: &str) -> &DrawMode {
+    fn mode(&self, role: Role, alias: &str, site: i64) -> &DrawMode {
+        if role != Role::Other {
+            if let Some((_, m)) = self.overrides.iter().find(|(s, _)| *s == site) {
+                return m;
+            }
+        }
         match role {
             Role::U1 => {
                 if alias == THRESHOLD_ALIAS {
@@ -185,7 +201,7 @@ impl DrawState {
         let entry = self.log.entry(key.clone()).or_default();
         let k = entry.calls;
         entry.calls += 1;
-        let mode = plan.mode(key.role, &key.alias);
+        let mode = plan.mode(key.role, &key.alias, key.site);
         let seeded = |k: u64| -> f64 {
             let v = mix(mix(plan.seed ^ 0x5851f42d4c957f2d) ^ site_hash(&key) ^ mix(k.wrapping_add(1)));
             // open interval (0,1): never 0 so that ln() is finite, as a real random() in (0,1)
